@@ -37,7 +37,7 @@ def bounds(tier):
     return {"max_steps": 3 if tier == "quick" else 5, "bgzf_max_cuts": 2 if tier == "quick" else 3, "small_file_records": 5}
 
 
-AWKWARD = ["ds:Z:*2+a-t", "zz:Z:a b:c", "xi:i:-5", "fl:f:-0.5"]
+AWKWARD = ["ds:Z:*2+a-t", "zz:Z:a b:c", "xi:i:-5", "fl:f:-0.5", "bo:i:77", "sn:Z:earlier", "iv:i:1"]  # incl. fields named like sort's own
 
 
 def build(nchrom, retagged=False):
@@ -60,6 +60,7 @@ def records(g, chains, maxlen):
     for h in hap:
         recs.append(sc.rec_on(g, f"w{len(recs)}", f">{h}", 0, g.segs[h].LN))
     recs.append(sc.rec_on(g, f"w{len(recs)}", ">u1", 1, 4))
+    recs.append(sc.rec_on(g, f"w{len(recs)}", ">ebv1", 2, 9))  # reference node of a contig that was not ordered: sn is its contig
     # a read name with a space (GraphAligner style)
     r = recs[1]
     recs[1] = rgfa.Rec(r.qname + " extra words", *r.cols()[1:], opt=r.opt)
